@@ -33,6 +33,13 @@ CLAIMS = {
         'member compared with its registered claim) and of nbf-else-iat through the year gate.',
    note='Trusted as C01. Outside: the JSON text form (serde attributes), multi-subject credentials, to_unix/from_unix inverse (C13).',
    technique=TECH_M, ref='DESIGN.md section 2 C07'),
+ 'C08': dict(
+   text='M: mirror image of C01 on the producing side - the three encoders sign create_message(protected segment placed in the token, payload placed in the token), '
+        'emit exactly those strings plus base64url(signature), prepare the payload by b64 of the protected header, validate unencoded compact payloads; '
+        'RFC 7797 5.2 character-set kernels over every char.',
+   note='Trusted as C01. Outside: serde_json text of flattened/general envelopes (a JSON-escaping defect observed natively is described in DESIGN.md), '
+        'JwkDocumentExt::create_jws (async state machine), real signatures.',
+   technique=TECH_M, ref='DESIGN.md section 2 C08'),
  'C10': dict(
    text='M kernels: the five DID character classes equal the W3C/RFC 3986 ABNF sets for every Unicode scalar value; M audit: every constructor of the plain DID type '
         'passes check_validity, DID-URL split validates and clears parts, join/setters validate before mutating; K (thorough): local validators on 3 symbolic bytes.',
